@@ -1,4 +1,5 @@
 """C16: layout utilities agree with the codec: usage map, dummy signals, frame length, compress.
+Second tie (translator): gen/Tie_frame.v proves the regenerated Frame.fit_dlc equal to Layout.fit_dlc for all sizes.
 Tie: Frame.get_frame_layout / create_dummy_signals / calc_dlc / fit_dlc / compress, CanMatrix.recalc_dlc / set_fd_type vs
 model/Layout.v (cmd 1601-1606) on the same cases (usage map as lists of signal indices per bit, all signals after
 create_dummy_signals, sizes, start bits after compress), incl. placements that leave the frame (Python slice clamping).
@@ -81,6 +82,9 @@ def run(chk):
                 "large sizes. non-trivial = at least one gap before a signal / a cell with >= 1 signal / a length that changes or is kept by the "
                 "max rule; distinct by (frame length, signals, operation)")
     ok = chk.build_and_audit()
+    if ok and hasattr(core, "translator_tie"):
+        # second tie for fit_dlc: the body regenerated from the source by py2coq equals Layout.fit_dlc for all sizes
+        core.translator_tie(chk, ['gen/Tie_frame.v'], ['gen/Gen_frame.v'])
     cm = core.import_impl()
     C = cm.canmatrix
     rng = chk.rng
@@ -229,13 +233,19 @@ def run(chk):
                           dict(bits=bad, signals_after=[(s.name, s.start_bit, s.size, s.is_little_endian) for s in after]))
 
     # ------------------------------------------------------------------ compress
+    hangs = [0]
+
     def check_compress(L, sigs, envelope):
         """envelope: one byte order, inside, no overlap -> the property is evaluated; else tie (and termination) only"""
+        if hangs[0] >= 3:
+            chk.count("compress-skipped-after-3-hangs")
+            return
         fr, objs = mk(L, sigs)
         try:
-            guarded(fr.compress)
+            guarded(fr.compress, 5)
         except Hang:
-            chk.violation("compress-hangs", "compress did not terminate within 10 s", desc(L, sigs))
+            hangs[0] += 1
+            chk.violation("compress-hangs", "compress did not terminate within 5 s", desc(L, sigs))
             return
         add(1606, [[L]] + groups(sigs), [[1], [o.start_bit for o in objs]], dict(op="compress", **desc(L, sigs)))
         if not envelope:
@@ -286,7 +296,7 @@ def run(chk):
     chk.exhaustive = True
     chk.notes.append("exhaustive part: every subset of used bits of 1-byte (256) and 2-byte (65536) frames, both byte orders, for "
                      "create_dummy_signals and compress; fit_dlc for every size 0..64")
-    for _ in range(3000 if not thorough else 150000):
+    for _ in range(3000 if not thorough else 450000):
         pattern(3, rng.getrandbits(24) & rng.getrandbits(24) if rng.random() < 0.3 else rng.getrandbits(24))
     # random layouts up to 64 bytes
     for L in range(1, 65):
